@@ -19,7 +19,9 @@ EST = {"mean": 0, "std": 1}
 def build_config(sc, minsucc=None):
     R = sc["R"]
     first, last = 0, (0 if R == 1 else R - 2)
-    return EnOptConfig.model_validate({
+    # plug-in methods may be given as "method" or as "plugin/method": every second scenario uses the qualified spelling
+    q = "default/" if (sum(sc["rw"]) + R) % 2 else ""
+    cfg = {
         "variables": {"initial_values": [0.0, 0.0]},
         "realizations": {"weights": [float(w) for w in sc["rw"]],
                          "realization_min_success": sc["minsucc"] if minsucc is None else minsucc},
@@ -33,7 +35,14 @@ def build_config(sc, minsucc=None):
             {"method": "cvar-objective", "options": {"sort": [1], "percentile": 0.5}},
             {"method": "cvar-constraint", "options": {"sort": 0, "percentile": 0.5}},
             {"method": "sort-constraint", "options": {"sort": 0, "first": first, "last": last}}],
-    })
+    }
+    for section in ("function_estimators", "realization_filters"):
+        for entry in cfg[section]:
+            entry["method"] = q + entry["method"]
+    # (a filter map that is all "no filter" may as well be left out)
+    if list(sc["flt"][:2]) == [-1, -1] and R % 2:
+        del cfg["objectives"]["realization_filters"]
+    return EnOptConfig.model_validate(cfg)
 
 
 class BatchEvaluator:
